@@ -16,10 +16,10 @@ import (
 )
 
 func init() {
-	register(&Rule{ID: "T-LENUINT", Props: []string{"C14"}, Doc: "LenUint is the ascending 10^k ladder; LenInt adds the sign", Run: runLenUint})
+	register(&Rule{ID: "T-LENUINT", Props: []string{"C14"}, Doc: "LenUint returns k on the whole k-th decade (static interval folding); LenInt adds the sign", Run: runLenUint})
 	register(&Rule{ID: "T-POW10", Props: []string{"C14"}, Doc: "float64pow10[k]==10^k, int64pow10[k]==10^k", Run: runPow10})
 	register(&Rule{ID: "T-HASH", Props: []string{"C16", "C09", "C08"}, Doc: "generated perfect hash agrees with its text table", Run: runHash})
-	register(&Rule{ID: "T-TABLES", Props: []string{"C16", "C17"}, Doc: "whitespaceTable/newlineTable membership; EncodeURL escapes iff table[c]", Run: runByteTables})
+	register(&Rule{ID: "T-TABLES", Props: []string{"C16", "C17"}, Doc: "IsWhitespace/IsNewline truth tables over all bytes; EncodeURL escapes iff table[c]", Run: runByteTables})
 }
 
 // ---------------------------------------------------------------- T-LENUINT
